@@ -552,14 +552,31 @@ def _mini_xml(text):
     return out
 
 
+def _xml_text(data):
+    """bytes of an XML document -> str, using BOM / declared encoding (default utf-8)."""
+    if data[:2] in (b'\xff\xfe', b'\xfe\xff'):
+        return data.decode('utf-16')
+    m = re.match(br'<\?xml[^>]*encoding=["\']([A-Za-z0-9._-]+)["\']', data)
+    enc = m.group(1).decode('ascii') if m else 'utf-8'
+    try:
+        return data.decode(enc)
+    except (UnicodeDecodeError, LookupError) as e:
+        raise DecodeError('cannot decode the document as %s: %s' % (enc, e))
+
+
 def decode_tigerxml(text):
     """Decode the TIGER-XML writer's output with xml.etree AND the independent tokenizer (both
-    must agree on every attribute).  Returns list of MT."""
+    must agree on every attribute).  `text` may be str or the raw bytes of a file.  Returns list of MT."""
+    if isinstance(text, bytes):
+        raw = text
+        text = _xml_text(raw)
+    else:
+        raw = re.sub(r"^<\?xml[^>]*\?>", '', text).encode('utf-8')
     try:
-        root = ET.fromstring(text.encode('utf-8') if isinstance(text, str) else text)
+        root = ET.fromstring(raw)
     except ET.ParseError as e:
         raise DecodeError('not well-formed XML: %s' % e)
-    toks2 = _mini_xml(text if isinstance(text, str) else text.decode('utf-8'))
+    toks2 = _mini_xml(text)
     flat_et = [(el.tag, dict(el.attrib)) for el in root.iter()]
     flat_mini = [(tag, attrs) for tag, attrs, kind in toks2 if kind != 'close']
     if flat_et != flat_mini:
